@@ -79,6 +79,7 @@ type Args struct {
 	Trace     bool     `json:"trace"`
 	HangMs    int      `json:"hang_ms"`
 	Samples   int      `json:"samples"`
+	GMP       string   `json:"-"`
 }
 
 // Replay is the replay file format.
@@ -176,7 +177,7 @@ type workerOut struct {
 func runWorker(bin string, a Args, timeout time.Duration) workerOut {
 	raw, _ := json.Marshal(a)
 	cmd := exec.Command(bin, "-test.run", "TestSim", "-test.timeout", "0")
-	cmd.Env = append(goEnv(), "VERIF_WORKER_ARGS="+string(raw), "GOMAXPROCS="+envOr("VERIF_WORKER_GOMAXPROCS", "1"))
+	cmd.Env = append(goEnv(), "VERIF_WORKER_ARGS="+string(raw), "GOMAXPROCS="+gomaxprocsFor(a))
 	stdout, _ := cmd.StdoutPipe()
 	var errb bytes.Buffer
 	cmd.Stderr = &errb
@@ -985,27 +986,27 @@ func writeEvidence(pl plan, prop, tier string, seed uint64, g *aggregate, wall f
 		samples = []any{"no sample trace was produced"}
 	}
 	cov := map[string]any{
-		"evaluations":         g.evals,
-		"distinct_nontrivial": len(g.nontrivial),
-		"rule":                pl.Rule,
-		"samples":             samples,
-		"exhaustive":          exhaustive,
-		"runs_per_hour":       int64(perHour),
-		"seeds_per_hour":      int64(perHour),
-		"simulated_seconds":   float64(g.simNs) / 1e9,
-		"scheduler_steps":     g.steps,
-		"faults_fired":        g.faults,
-		"probes":              g.probes,
-		"distinct_schedules":  len(g.scheds),
-		"distinct_states":     len(g.states),
-		"runs_per_scenario":   g.perScen,
-		"enumerated":          enum,
-		"components_real":     pl.Real,
-		"components_stub":     pl.Stubs,
-		"findings":            reported,
-		"repo_head":           head,
-		"toolchain":           gov,
-		"workers":             workers,
+		"evaluations":                       g.evals,
+		"distinct_nontrivial":               len(g.nontrivial),
+		"rule":                              pl.Rule,
+		"samples":                           samples,
+		"exhaustive":                        exhaustive,
+		"runs_per_hour":                     int64(perHour),
+		"seeds_per_hour":                    int64(perHour),
+		"simulated_seconds":                 float64(g.simNs) / 1e9,
+		"scheduler_steps":                   g.steps,
+		"faults_fired":                      g.faults,
+		"probes":                            g.probes,
+		"distinct_schedules":                len(g.scheds),
+		"distinct_states":                   len(g.states),
+		"runs_per_scenario":                 g.perScen,
+		"enumerated":                        enum,
+		"components_real":                   pl.Real,
+		"components_stub":                   pl.Stubs,
+		"findings":                          reported,
+		"repo_head":                         head,
+		"toolchain":                         gov,
+		"workers":                           workers,
 		"runs_skipped_after_stop_or_budget": g.skipped,
 	}
 	ev := map[string]any{
@@ -1019,4 +1020,11 @@ func writeEvidence(pl plan, prop, tier string, seed uint64, g *aggregate, wall f
 		"violations":  unknown,
 	}
 	writeJSON(filepath.Join(root, "evidence", prop+".json"), ev)
+}
+
+func gomaxprocsFor(a Args) string {
+	if a.GMP != "" {
+		return a.GMP
+	}
+	return envOr("VERIF_WORKER_GOMAXPROCS", "1")
 }
